@@ -34,7 +34,7 @@ NAMES = {
 }
 DIRS = {"plain": ["src", "pkg", "lib dir", "docs"], "LICENSES": ["LICENSES"], ".reuse": [".reuse"], ".git": [".git"],
         ".hg": [".hg"], ".sl": [".sl"], "subprojects": ["subprojects"], "symlinkdir": ["lnk", "lnk2"],
-        "ignoreddir": ["build", "out"], "untrackeddir": ["scratch", "tmpdir"], "submodule": ["sm", "vendor-sm"]}
+        "ignoreddir": ["build", "out"], "untrackeddir": ["scratch", "tmpdir"], "submodule": ["sm", "vendor-sm", "lib.js", "docs.v1.2"]}
 # names that END IN A LINE BREAK are none of the excluded names (and a directory 'LICENSES\n' is not LICENSES/)
 NAMES_NL = {"LICENSEX": ["LICENSE\n", "LICENCE.txt\n"], "COPYINGX": ["COPYING\n", "COPYING.md\n"], "spdxx": ["a.spdx\n", "a.spdx.json\n"],
             "license-ext-other": ["x.py.license\n"], "toml-other": ["REUSE.toml\n"], "hidden": [".hgtags\n", ".git\n"]}
@@ -55,7 +55,7 @@ def build_project(g: dict, rnd: random.Random) -> dict:
             key = (tuple(n["ctx"][:depth + 1]))
             if key not in dirname:
                 pool = DIRS[c] if not (g.get("nl") and c == "plain") else DIRS_NL
-                dirname[key] = pool[rnd.randrange(len(pool))] if c == "plain" else pool[0]
+                dirname[key] = pool[rnd.randrange(len(pool))] if c in ("plain", "submodule") else pool[0]
             comps.append(dirname[key])
             if c == "ignoreddir":
                 gitignore.append("/" + "/".join(comps) + "/")
@@ -256,6 +256,13 @@ def observe(root: Path, opts: dict, route: str) -> dict:
         if not allf:
             obs["exit"] = 0
             return obs
+        link = root.parent / "via-link"
+        if opts.get("_via_link"):
+            # the project reached through a symbolic link: --root LINK, files named through the link or by their real path
+            if not link.is_symlink():
+                os.symlink(root.name, link)
+            glob = ["--root", str(link), *glob[2:]]
+            allf = [str(link / Path(x).relative_to(root)) if k % 2 == 0 else x for k, x in enumerate(allf)]
         r = core.run_reuse([*glob, "lint-file", *allf])
         if r["exc"] or r["exit"] not in (0, 1):
             obs["crash"] = (r["exc"] or r["err"] or "exit %s" % r["exit"])[-500:]
@@ -264,6 +271,8 @@ def observe(root: Path, opts: dict, route: str) -> dict:
         for ln in r["out"].splitlines():
             if ": " in ln:
                 pth = ln.rsplit(": ", 1)[0]
+                if opts.get("_via_link") and pth.startswith(str(link) + os.sep):
+                    pth = str(root) + pth[len(str(link)):]
                 rel = projmodel._rel(pth, root)
                 if rel not in seen:
                     seen.append(rel)
@@ -381,7 +390,7 @@ def run_case(case: dict) -> list:
                 for f_ in obs["files"]:
                     f_["path"] = "/".join(scope) + "/" + f_["path"]
             else:
-                obs = observe(root, p["opts"], route)
+                obs = observe(root, dict(p["opts"], _via_link=(route == "lint-file" and case["tid"] % 2 == 0)), route)
             events.append({"tid": case["tid"] * 8 + ri, "p": pj, "checks": ["C03"], "scope": scope,
                            "label": json.dumps({"route": route, "scope": "/".join(scope), "git": p["git"], "opts": p["opts"],
                                                 "nodes": [[f["pathstr"], f["ncls"], f["type"], f.get("want"), f["ignored"]]
